@@ -312,9 +312,16 @@ def r5_lock(chk: Check) -> None:
         chk.violation("C14.R5", fn, "freshness test on the re-read entry", "after the re-read nothing checks whether another thread already refreshed: the token is fetched again", fn.loc(w))
     else:
         t = tests[0]
-        inner, neg = strip_not(t.test)
-        early = any(isinstance(s, ast.Return) for s in t.body)
-        shape = neg and "is None" in unparse(inner) and ">=" in unparse(inner) and early
+        # what is known at the early `return` of the cached data (spelling-independent: `not (a or b)`, `not a and not b`,
+        # nested ifs, guard clauses all give the same facts)
+        rets = [r_ for r_ in ast.walk(t) if isinstance(r_, ast.Return)]
+        shape = False
+        for r_ in rets:
+            facts = known_conditions(g, g.stmt_nodes_containing(r_))
+            present = facts.get(f"{var} is None") is False
+            fresh = any("expires" in k and ((">=" in k and v_ is False) or ("<" in k and ">=" not in k and "<=" not in k and v_ is True)) for k, v_ in facts.items())
+            if present and fresh:
+                shape = True
         chk.decide(True if shape else None, "C14.R5", fn, "freshness test on the re-read entry", f"test `{unparse(t.test, 100)}` not recognised", fn.loc(t))
     # other writers of the cache
     for f in P.all_functions():
